@@ -183,6 +183,16 @@ mut('mC_revert_done_instance_check','''	if cur, ok := r.triggers[triggerID]; ok 
 		return
 	}
 	res := r.detachTriggerLocked(triggerID)''','''	res := r.detachTriggerLocked(triggerID)''')
+# the seeded change "n2": a failed start-up unsubscribes each snapshotted subscriber instead of detaching the trigger
+mut('m19_startfail_unsubscribes_snapshot','''			for _, sub := range trig.snapshotSubscriptions() {
+				sub.writeError(r.errorFormatter, sub.ctx, err, sub.resolve.Response)
+			}
+			r.doneTriggerFromUpdater(triggerID, trig)
+			return''','''			for _, sub := range trig.snapshotSubscriptions() {
+				sub.writeError(r.errorFormatter, sub.ctx, err, sub.resolve.Response)
+				_ = r.UnsubscribeSubscription(sub.id)
+			}
+			return''')
 # C13 part real-source: the seeded change "m3" (HashTriggerInput hashes a list of picked fields and forgets body.extensions)
 gsrc=open('/repo/v2/pkg/engine/datasource/graphql_datasource/graphql_datasource.go').read()
 gold='''func (s *SubscriptionSource) HashTriggerInput(input []byte, xxh *xxhash.Digest) error {
